@@ -184,7 +184,7 @@ ShapeActs(h) == UNION { ShapeActsK(h, k) : k \in KindSet }
 (* bare, values restricted to the claimed kinds                                               *)
 RdfSimple == {"attribution", "communication", "delegation", "influence", "specialization",
               "alternate", "membership"}
-RdfVals == {"none", "str", "empty", "int", "big", "true", "false", "dt", "uri", "qn", "lang", "two", "nasty"}
+RdfVals == {"none", "str", "empty", "emptylang", "int", "big", "true", "false", "dt", "uri", "qn", "lang", "two", "nasty"}
 RdfExtras == {<<"other", v>> : v \in RdfVals}
              \cup {<<"role", "str">>, <<"label", "str">>, <<"label", "lang">>, <<"location", "str">>,
                    <<"location", "qn">>, <<"value", "int">>, <<"value", "two">>, <<"type", "qn">>, <<"type", "str">>}
